@@ -493,10 +493,15 @@ def _streams_wired_independently(ctx):
     # `.captured_stderr` of its parameter
     cands = []
     for q, f in sp.functions():
-        raw = f
-        tg = {t.attr for a in walk_local(raw) if isinstance(a, ast.Assign) and isinstance(a.value, ast.Call) and (call_name(a.value) or "").endswith("open_reader") for t in a.targets if isinstance(t, ast.Attribute)}
-        if {"captured_stdout", "captured_stderr"} <= tg and raw.args.args:
-            cands.append((q, raw))
+        if "." in q or not f.args.args:
+            continue
+        fv = flat(ctx, f, 2)
+        tg = {t.attr for a in walk_local(fv) if isinstance(a, ast.Assign) and isinstance(a.value, ast.Call) and (call_name(a.value) or "").endswith("open_reader") for t in a.targets if isinstance(t, ast.Attribute)}
+        if {"captured_stdout", "captured_stderr"} <= tg:
+            cands.append((q, f))
+    # the innermost one: it calls no other candidate (callers see both stores through it)
+    names = {q for q, _ in cands}
+    cands = [(q, f) for q, f in cands if not any((call_name(c) or "") in names - {q} for c in calls_in(f))]
     if len(cands) != 1:
         raise AnalysisError(f"xonsh/procs/specs.py: the function that wires the capture of the last stage not identified ({[q for q, _ in cands]})")
     q, fn = cands[0]
